@@ -53,3 +53,183 @@ pub(crate) mod k {
         assert!(str_is_char(r.as_ref(), c), "canary");
     }
 }
+
+// ------------------------------------------------------------------------------------------
+// C04: CellText view (cells <-> characters), C11 / C06: Text
+// ------------------------------------------------------------------------------------------
+
+/// cells a character occupies in a row, as laid out by `StringBuffer` (specification side; only
+/// for the alphabet the obligations range over)
+pub(crate) fn spec_cols_char(c: char) -> i32 {
+    match c {
+        '一' | '界' => 2,
+        _ => 1,
+    }
+}
+
+pub(crate) fn spec_cols(s: &str) -> i32 {
+    let mut n = 0;
+    for c in s.chars() {
+        n += spec_cols_char(c);
+    }
+    n
+}
+
+/// the strings the CellText obligations range over: ASCII, 2-byte Latin, 3-byte wide CJK,
+/// combining mark, and two-character mixtures
+pub(crate) const ALPHABET: [&str; 10] =
+    ["a", "é", "一", "\u{301}", "ab", "éa", "aé", "一a", "a一", "界一"];
+
+/// the smaller alphabet used for *pairs* of texts
+pub(crate) const PAIR_ALPHABET: [&str; 5] = ["a", "é", "一", "\u{301}", "一a"];
+
+#[cfg(kani)]
+pub(crate) mod k2 {
+    use super::*;
+    use crate::__verif::kg::*;
+
+    /// T1 + T4: construction and anchoring (content "é": multi-byte; the content is only moved)
+    #[kani::proof]
+    #[kani::unwind(6)]
+    pub(crate) fn check_celltext_new_and_anchor() {
+        let c = any_valid_cell();
+        let d = any_valid_cell();
+        kani::cover!(true);
+        let s = "é";
+        let t = CellText::new(c, s.to_string());
+        assert!(t.start == c && str_eq_n::<4>(&t.content, s), "CellText::new keeps cell and content");
+        let a = t.absolute_position(d);
+        assert!(a.start.x == c.x + d.x && a.start.y == c.y + d.y && str_eq_n::<4>(&a.content, s), "absolute_position translates the cell");
+        let txt: Text = t.into();
+        assert!(str_eq_n::<4>(&txt.text, s), "Text keeps the content");
+        // anchored inside the first character's cell: origin + (0.25, 1.5)
+        assert!(txt.start.x == c.x as f32 + 0.25 && txt.start.y == c.y as f32 * 2.0 + 1.5, "anchor = q of the start cell");
+        let o = c.top_left_most();
+        let e = c.bottom_right_most();
+        assert!(txt.start.x > o.x && txt.start.x < e.x && txt.start.y > o.y && txt.start.y < e.y, "anchor strictly inside the cell");
+    }
+
+    /// C11: Text::scale (content "é")
+    #[kani::proof]
+    #[kani::unwind(6)]
+    #[kani::solver(cvc5)]
+    pub(crate) fn check_text_scale() {
+        let p = any_point();
+        let s: f32 = kani::any();
+        kani::assume(fb_point(p) && valid_scale(s));
+        kani::cover!(true);
+        let t = Text::new(p, "é".to_string());
+        let r = t.scale(s);
+        assert!(r.start.x.to_bits() == (p.x * s).to_bits() && r.start.y.to_bits() == (p.y * s).to_bits(), "anchor scaled");
+        assert!(str_eq_n::<4>(&r.text, "é"), "text unchanged");
+    }
+
+    /// C06: Text::absolute_position (content "é")
+    #[kani::proof]
+    #[kani::unwind(6)]
+    pub(crate) fn check_text_absolute_position() {
+        let p = any_point();
+        let c = any_valid_cell();
+        kani::assume(grid_lt(p, 16.0));
+        kani::cover!(true);
+        let t = Text::new(p, "é".to_string());
+        let r = t.absolute_position(c);
+        assert!(r.start.x == p.x + c.x as f32 && r.start.y == p.y + c.y as f32 * 2.0, "anchor translated");
+        assert!(str_eq_n::<4>(&r.text, "é"), "text unchanged");
+    }
+}
+
+#[cfg(all(svgbob_verif, test))]
+pub(crate) mod b {
+    use super::*;
+    use unicode_width::UnicodeWidthChar;
+
+    /// `CellText` occupies, for every single character, exactly the cells `StringBuffer` allots
+    /// to it (exhaustive over all `char`s; natively, because the unicode-width tables are data)
+    #[test]
+    fn bounded_celltext_columns_all_chars() {
+        let mut n = 0u64;
+        for u in 1u32..=0x10FFFF {
+            let Some(c) = char::from_u32(u) else { continue };
+            let sb = crate::buffer::StringBuffer::from(c.to_string().as_str());
+            // rows: a line terminator yields no row; otherwise one row of 1 + fillers
+            if sb.len() != 1 || sb[0].is_empty() {
+                continue; // U+000A: a line terminator never occurs inside a row
+            }
+            let row_cols = sb[0].len() as i32;
+            let t = CellText::new(Cell::new(3, 4), c.to_string());
+            if t.end_cell() != Cell::new(3 + row_cols, 4) {
+                println!("BOUNDED-WITNESS char U+{:04X}: row has {} columns, CellText claims {}", u, row_cols, t.end_cell().x - 3);
+                panic!("CellText columns disagree with StringBuffer");
+            }
+            n += 1;
+        }
+        println!("BOUNDED-CASES {}", n);
+    }
+
+    /// T2 + T3 (bounded stand-in): can_merge / merge over display columns - whole view
+    #[test]
+    fn bounded_celltext_merge() {
+        let mut n = 0u64;
+        for sa in ALPHABET {
+            for sb in ALPHABET {
+                for ya in 0..2 {
+                    for dx in -7i32..=7 {
+                        let ca = Cell::new(10, 5);
+                        let cb = Cell::new(10 + dx, 5 + ya);
+                        let a = CellText::new(ca, sa.to_string());
+                        let b = CellText::new(cb, sb.to_string());
+                        let a_then_b = ca.y == cb.y && ca.x + spec_cols(sa) == cb.x;
+                        let b_then_a = ca.y == cb.y && cb.x + spec_cols(sb) == ca.x;
+                        let w = format!("a={:?}@{} b={:?}@{}", sa, ca, sb, cb);
+                        if a.can_merge(&b) != (a_then_b || b_then_a) {
+                            println!("BOUNDED-WITNESS can_merge wrong for {}", w);
+                            panic!("can_merge <=> same row and consecutive display columns");
+                        }
+                        match a.merge(&b) {
+                            Some(m) => {
+                                let (first, sf, ss) = if a_then_b { (&a, sa, sb) } else { (&b, sb, sa) };
+                                if !(a_then_b || b_then_a) || m.start != first.start || m.content != format!("{}{}", sf, ss) {
+                                    println!("BOUNDED-WITNESS merge wrong for {}: {:?}", w, m);
+                                    panic!("merge = left ++ right at the left start");
+                                }
+                            }
+                            None => {
+                                if a_then_b || b_then_a {
+                                    println!("BOUNDED-WITNESS no merge for {}", w);
+                                    panic!("consecutive texts on a row do merge");
+                                }
+                            }
+                        }
+                        n += 1;
+                    }
+                }
+            }
+        }
+        println!("BOUNDED-CASES {}", n);
+    }
+
+    /// T5 (bounded stand-in): cells / end_cell / bounds / is_contacting consistent with the view
+    #[test]
+    fn bounded_celltext_cells() {
+        let mut n = 0u64;
+        for s in ALPHABET {
+            for x in [0, 1, 7, 1000] {
+                let c = Cell::new(x, 3);
+                let t = CellText::new(c, s.to_string());
+                let cols = spec_cols(s);
+                let cells: Vec<Cell> = t.cells().into_iter().collect();
+                let want: Vec<Cell> = (0..cols).map(|k| Cell::new(x + k, 3)).collect();
+                let (lo, hi) = t.bounds();
+                if t.end_cell() != Cell::new(x + cols, 3) || cells != want || lo != c.top_left_most()
+                    || hi != Cell::new(x + cols, 3).bottom_right_most()
+                {
+                    println!("BOUNDED-WITNESS cells/bounds wrong for {:?}@{}", s, c);
+                    panic!("cells are the consecutive display columns");
+                }
+                n += 1;
+            }
+        }
+        println!("BOUNDED-CASES {}", n);
+    }
+}
